@@ -670,13 +670,13 @@ def body(ck: common.Check):
     ck.obligations(["PyxelModel.Props.C11"], ["PyxelModel.Drive.C11"])
     rng = ck.rng
     quick = ck.tier == "quick"
-    rcases = [gen_ranges_case(rng) for _ in range(220 if quick else 3000)]
+    rcases = [gen_ranges_case(rng) for _ in range(150 if quick else 3200)]
     # the two documented end-point patterns, always present
     rcases.append({"stream": "ranges", "multi": False, "target_shape": [6, 6], "det": [6, 6], "times": 1,
                    "target_range": [0, 5, 0, 5], "result_range": [2, 5, 0, 5], "relation": "unequal"})
     rcases.append({"stream": "ranges", "multi": False, "target_shape": [6, 6], "det": [6, 6], "times": 1,
                    "target_range": [0, 3, 0, 5], "result_range": [2, 5, 0, 5], "relation": "shifted"})
-    fcases = [gen_fitness_case(rng) for _ in range(70 if quick else 900)]
+    fcases = [gen_fitness_case(rng) for _ in range(54 if quick else 950)]
     fcases += [gen_fitness_case(rng, multi=True, weights=w) for w in ("list", "file", "list")]
     runs = [gen_run_case(rng, i) for i in range(6 if quick else 36)]
     runs += [gen_policy_run_case(rng, i) for i in range(4 if quick else 24)]
